@@ -13,6 +13,7 @@
 module helpers
 
   use, intrinsic :: iso_c_binding, only: c_double, c_int, c_bool
+  use, intrinsic :: ieee_arithmetic, only: ieee_value, ieee_quiet_nan
   use types, only: dp
   implicit none
   private min_index, sort_in_place, is_separating
@@ -77,6 +78,9 @@ contains
        result_ = 1.0_dp
     else
        success = .FALSE.
+       ! Match the pure Python implementation (which returns NaN) rather
+       ! than leaving ``result_`` undefined.
+       result_ = ieee_value(result_, ieee_quiet_nan)
     end if
 
   end subroutine wiggle_interval
